@@ -611,3 +611,69 @@ Lemma harness_steps_reachable c sel s h s' e :
 Proof.
   intros R P H. split; [exact (hexec_reachable _ _ _ _ _ _ R H) | exact (hexec_prompt _ _ _ _ _ _ P H)].
 Qed.
+
+(* ---------- the repair: re-checking the cap in the increment ---------- *)
+Lemma step_res_cases c sel s l s' :
+  step_res c sel s l = Some s' ->
+  step c sel s l = Some s' \/
+  exists t h, l = LBegin t /\ nth_error (threads s) t = Some (Selected (Some h)) /\ full c s h = true /\
+              s' = {| conns := conns s; fails := fails s; timers := timers s; fired := fired s;
+                      flog := flog s; now := now s; threads := set_nth (threads s) t (Selected None);
+                      robin := robin s |}.
+Proof.
+  intros H. destruct l; try (left; exact H). unfold step_res in H.
+  destruct (nth_error (threads s) t) as [[|[h|]|?|?|?]|] eqn:Hn; try discriminate H.
+  destruct (full c s h) eqn:F; [|left; exact H].
+  right. exists t, h. injection H as <-. auto.
+Qed.
+
+Lemma step_res_inv c sel s l s' : Inv c s -> step_res c sel s l = Some s' -> Inv c s'.
+Proof.
+  intros I H. destruct (step_res_cases _ _ _ _ _ H) as [H1|(t & h & -> & Hn & F & ->)].
+  - exact (step_inv _ _ _ _ _ I H1).
+  - destruct I as [Ic If Il Id Ip Io]. constructor; simpl; auto.
+    intros h0. rewrite (cnt_set_nth _ _ _ _ _ Hn). rewrite Ic. simpl. lia.
+Qed.
+
+Lemma step_res_cap c sel s l s' :
+  0 < c_max_conns c -> (forall h, conns s h <= c_max_conns c) -> step_res c sel s l = Some s' ->
+  forall h, conns s' h <= c_max_conns c.
+Proof.
+  intros Hm HC H. destruct (step_res_cases _ _ _ _ _ H) as [H1|(t & h & -> & Hn & F & ->)]; [|exact HC].
+  destruct l.
+  - inv_spawn H1. exact HC.
+  - inv_select H1 sel s t o r Hn Hsel. exact HC.
+  - (* the increment happens only when the host is not full *)
+    unfold step_res in H. inv_begin H1 s t h Hn.
+    destruct (full c s h) eqn:F; [injection H as H; exfalso|].
+    + (* refused branch yields a different state: conns unchanged; contradiction with bump unless impossible *)
+      apply (f_equal (fun f => f h)) in H. rewrite bump_same in H. lia.
+    + intros h0. simpl. rewrite bump_spec. destruct (Nat.eqb h0 h) eqn:E; [|specialize (HC h0); lia].
+      apply Nat.eqb_eq in E. subst h0. unfold full in F. apply andb_false_iff in F as [F|F].
+      * apply Z.ltb_ge in F. lia.
+      * apply Z.leb_gt in F. lia.
+  - inv_nohost H1 s t Hn. exact HC.
+  - inv_finish H1 s t h Hn. intros h0. simpl. rewrite bump_spec. specialize (HC h0). destruct (Nat.eqb h0 h); lia.
+  - inv_record H1 c s t h Hn Hft; exact HC.
+  - inv_fire H1 s k h d Hn Hdue. exact HC.
+  - inv_tick H1 d Hd. exact HC.
+Qed.
+
+Lemma run_res_inv_cap c sel ls : forall s s',
+  0 < c_max_conns c -> Inv c s -> (forall h, conns s h <= c_max_conns c) -> run_res c sel s ls = Some s' ->
+  Inv c s' /\ forall h, conns s' h <= c_max_conns c.
+Proof.
+  induction ls as [|l ls IH]; intros s s' Hm I HC H; simpl in H.
+  - injection H as <-. split; assumption.
+  - destruct (step_res c sel s l) as [s1|] eqn:E; [|discriminate].
+    exact (IH _ _ Hm (step_res_inv _ _ _ _ _ I E) (step_res_cap _ _ _ _ _ Hm HC E) H).
+Qed.
+
+Lemma conns_le_max_with_recheck c sel s h :
+  0 < c_max_conns c -> reachable_res c sel s ->
+  conns s h = cnt (is_fwd h) (threads s) /\ conns s h <= c_max_conns c.
+Proof.
+  intros Hm (r & ls & H).
+  destruct (run_res_inv_cap c sel ls (init r) s Hm (inv_init c r)) as [I HC]; [simpl; intros; lia | exact H |].
+  split; [apply (inv_conns _ _ I) | apply HC].
+Qed.
